@@ -156,6 +156,13 @@ fn epoch_of_dir(dir: &str) -> u64 {
 
 thread_local! {
     static SNAPSHOT_MSGS: std::cell::RefCell<Vec<u64>> = const { std::cell::RefCell::new(Vec::new()) };
+    static DISTRO_MSGS: std::cell::RefCell<Vec<(u64, u64)>> = const { std::cell::RefCell::new(Vec::new()) };
+}
+
+/// (source node, simulated time in us) of every periodic client-instance report (SyncDistroClientInstances, the registry's
+/// 12 s anti-entropy round) sent in this run
+pub fn naming_distro_msg_times() -> Vec<(u64, u64)> {
+    DISTRO_MSGS.with(|v| v.borrow().clone())
 }
 
 /// simulated times (us) at which naming snapshot messages were sent in this run
@@ -236,6 +243,9 @@ fn install_transport() {
             // naming sync messages: remember when full-state messages (snapshot pull answers / pushes) travel
             if ptype == "NamingRouteRequest" {
                 if let Some(sub) = payload.metadata.as_ref().and_then(|m| m.headers.get("sub_name")) {
+                    if sub == "SyncDistroClientInstances" {
+                        DISTRO_MSGS.with(|v| v.borrow_mut().push((src, sim::now_us())));
+                    }
                     if sub == "Snapshot" {
                         SNAPSHOT_MSGS.with(|v| v.borrow_mut().push(sim::now_us()));
                         sim::count("net.naming_snapshot_msgs", 1);
